@@ -139,11 +139,20 @@ CursorOK(words, st) == /\ st.i >= 1 /\ st.i <= Len(words) + 1
                        /\ (st.pos > 0 => st.i <= Len(words) /\ st.pos <= Len(words[st.i]) + 1)
 
 \* ---------------------------------------------------------------- value checks, formats, conversion
+\* pattern checks (std::regex, whole value must match): a fixed list of patterns whose languages are given here
+\*   1: [a-z]+     2: [0-9]{2,4}     3: a.*z     4: [A-Z][a-z0-9_]*
+PatternOK(id, t) ==
+   CASE id = 1 -> Len(t) >= 1 /\ \A k \in 1..Len(t) : IsLower(t[k])
+     [] id = 2 -> Len(t) >= 2 /\ Len(t) <= 4 /\ \A k \in 1..Len(t) : IsDigit(t[k])
+     [] id = 3 -> Len(t) >= 2 /\ t[1] = 97 /\ t[Len(t)] = 122 /\ \A k \in 1..Len(t) : t[k] # 10 /\ t[k] # 13
+     [] id = 4 -> Len(t) >= 1 /\ IsUpper(t[1]) /\ \A k \in 2..Len(t) : IsLower(t[k]) \/ IsDigit(t[k]) \/ t[k] = 95
+     [] OTHER -> TRUE
 CheckOK(ch, raw) ==
    CASE ch.k = "lower"  -> IsIntText(raw) /\ IntOf(raw) >= ch.a                 \* inclusive
      [] ch.k = "upper"  -> IsIntText(raw) /\ IntOf(raw) < ch.a                  \* exclusive
      [] ch.k = "range"  -> IsIntText(raw) /\ IntOf(raw) >= ch.a /\ IntOf(raw) < ch.b
      [] ch.k = "values" -> \E k \in 1..Len(ch.vals) : ch.vals[k] = raw
+     [] ch.k = "pattern" -> PatternOK(ch.a, raw)
      [] ch.k = "minlen" -> Len(raw) >= ch.a
      [] ch.k = "maxlen" -> Len(raw) <= ch.a
      [] OTHER -> TRUE
